@@ -63,11 +63,14 @@ def run (op : String) (a : Json) : Option (Except String Json) :=
         | .error e => jErr e
   | "dict.decode" => some do
       let Γ ← dCtx (field a "ctx")
-      let c ← dStr (field a "clazz")
       let l ← dLoaded (field a "loaded")
       let listOf := (field a "list_of").getBool?.toOption.getD false
       let fuel := (field a "fuel").getNat?.toOption.getD 64
-      pure <| outcome (parseJson benv Γ (dCfg (field a "config")) fuel c listOf l)
+      match field a "clazz" with
+      | .null => pure <| outcome (parseJsonAuto benv Γ (dCfg (field a "config")) fuel l)
+      | cj =>
+        let c ← dStr cj
+        pure <| outcome (parseJson benv Γ (dCfg (field a "config")) fuel c listOf l)
   | _ => none
 
 end OpsFault
